@@ -128,12 +128,14 @@ def check(prog, run):
                 ctts_rule(run, key, trak, m, q)
 
 
-def tick_rule(cx, run, R="R1"):
+def tick_rule(cx, run, R="R1", exact=True):
     """every public write entry point converts its own timestamp parameter with the one formula cast_u64(round(t * 90000.0)): the same
     function for both tracks and all entry points, no state, no other parameter (so equal submitted times give equal ticks, the
-    conversion is monotone, and no per-call rounding error accumulates)"""
+    conversion is monotone, and no per-call rounding error accumulates).  exact=False (C09, C15): only `the same stateless function
+    of the call's own timestamp at every entry point` - which formula is C03's business."""
     u = cx.u
     n = 0
+    sigs = {}
     for ent, want in TICKS.items():
         b = u.bodies.get(ent)
         if b is None:
@@ -154,7 +156,13 @@ def tick_rule(cx, run, R="R1"):
             loads = {s[1] for s in srcs if s[0] == "load"}
             good = params == {pname} and consts == {90000} and not loads and \
                 sorted(o for o in ops_ if not o.startswith("cast:IntToFloat")) == sorted(["Mul", "call:std::f64::round", "cast:FloatToInt:u64"])
+            if not exact:
+                good = params == {pname} and not loads
+                sigs["%s(%s)" % (mir.norm(ent).split("::")[-1], pname)] = (tuple(sorted(ops_)), tuple(sorted(map(str, consts))))
             run.check(good, R, "%s tick(%s)" % (mir.norm(ent), pname), sym.show(e), "tick conversion of %s is %s (sources %s, ops %s)" % (pname, sym.show(e)[:120], sorted(map(str, srcs))[:4], ops_), mir.loc_of(t))
+    if not exact and sigs:
+        run.check(len(set(sigs.values())) == 1, R, "one conversion for all entry points", "%d conversions, same operations and constants" % len(sigs),
+                  "the entry points convert their timestamps differently (%s): equal or ordered submitted times of the two tracks need not stay so" % ", ".join("%s: %s" % (k, "/".join(v[0])) for k, v in sorted(sigs.items())))
     run.floor(R, n, 4, "tick conversions")
 
 
